@@ -198,7 +198,7 @@ def _dir_structure(q, m, per):
     returns None if fine, else a reason"""
     x = z3.String("x_dir")
     S = _rx.sigma_star(True)
-    for (rx, mode, base, what) in ((m.base_rx, "search", m.base, "BASE_STRING_RE.search"),
+    for (rx, mode, base, what) in ((m.base_rx, m.base_method, m.base, "BASE_STRING_RE.%s" % m.base_method),
                                    (m.inner_base_rx, "match", m.inner.base, "re.match(INNER.BASE_STRING, ...)")):
         v = rx.variants
         lit = py2z(base)
@@ -282,6 +282,23 @@ def _misaligned_witness(q, m):
     return None
 
 
+def guarded(f):
+    """a canonicality violation met on the validation corpus (the real parser accepts a string the extracted model does not, and it
+    does not print back to itself) is reported as a violation with a replay, not as a modelling error"""
+    def run(ctx):
+        try:
+            return f(ctx)
+        except cm.RealCodeViolation as e:
+            q = Q(ctx)
+            return q.finish({"status": "violated", "nonvacuous": True, "witness_class": classify_canon(e.w), "model": repr(e.w),
+                             "call": "uri.from_string(%r).to_string()" % (e.w,), "replay_src": REPLAY_CANON % (cm.MDMF_KINDS, e.w),
+                             "info": {"found": "while comparing the extracted model with the real from_string on the corpus", "what": e.what}})
+    run.__name__ = f.__name__
+    run.__doc__ = f.__doc__
+    return run
+
+
+@guarded
 def ob_canonical(ctx):
     files, dirs, models, chain, info = _setup(ctx, "rx")
     q = Q(ctx)
@@ -513,6 +530,7 @@ def _print_probes(ctx, models, q, info):
     return None
 
 
+@guarded
 def ob_print_roundtrip(ctx):
     files, dirs, models, chain = cm.build()
     info = {}
@@ -649,6 +667,7 @@ sys.exit(0)
 '''
 
 
+@guarded
 def ob_dispatch(ctx):
     files, dirs, models, chain, info = _setup(ctx, "full")
     q = Q(ctx)
@@ -718,6 +737,7 @@ print("returned", type(r).__name__); sys.exit(0)
 '''
 
 
+@guarded
 def ob_parse_total(ctx):
     """strings accepted by a class regex never make init_from_string raise (int() digit limit)."""
     files, dirs, models, chain, info = _setup(ctx, "rx")
@@ -801,6 +821,7 @@ sys.exit(1 if back != G else 0)
 '''
 
 
+@guarded
 def ob_base32_tables(ctx):
     """E2/E3: the base32 sub-languages of the live cap regexes are exactly the canonical encodings; the live
     s8 table (a2b's precondition) accepts them; bit-level definition of 'canonical' decided on bit-vectors."""
